@@ -1077,6 +1077,10 @@ def neg_decls(codec):
     ds = [("comment", ("## -*- coding: %s -*-\n" % x).encode("ascii"), x, None), ("ie", b"", None, x)]
     if codec == "utf-8":
         ds.append(("none", b"", None, None))
+    # the comment names this codec, input_encoding names one that can decode anything: the comment decides, so bytes
+    # that are not valid in the comment's codec are an error, not a reason to fall back
+    other = "utf-8" if x.replace("_", "-").lower() in ("latin-1", "iso-8859-1", "latin1") else "latin-1"
+    ds.append(("conflict", ("## -*- coding: %s -*-\n" % x).encode("ascii"), x, other))
     return ds
 
 
@@ -1810,7 +1814,7 @@ def plan(tier, seed):
     ns = 48
     jobs = [{"kind": "grid", "tier": tier, "seed": seed, "shard": i, "nshards": ns} for i in range(ns)]
     for codec in CODECS:
-        for d in ("comment", "ie", "none"):
+        for d in ("comment", "ie", "none", "conflict"):
             if d == "none" and codec != "utf-8":
                 continue
             frames = ["mid", "end", "lit"] + (["lead"] if (tier != "quick" or codec in ("utf-8", "utf-8-bom")) else [])
